@@ -150,9 +150,18 @@ static void trunc_run(uint64_t idx)
 static ::vf::SuiteReg reg_trunc(C09_PART "_truncated_memcheck", trunc_count, trunc_run);
 #endif
 
+#if defined(C09_NEW_SETUP) && !defined(C09_VALGRIND)
+#include "hist_new.h"
+static uint64_t hist_count() { return vf::thorough() ? 20000 : 400; }
+static ::vf::SuiteReg reg_hist("new_history", hist_count, hist_new_run);
+#endif
 #ifdef C09_NEW_SETUP
 void c09_new_setup()
 {
+#ifndef C09_VALGRIND
+    vf::require("after every step (and every look at storage()) the long-lived storage holds the concatenation so far");
+    vf::require("the long-lived bounded reader decodes the history in sequence; avail() between loads consumes nothing");
+#endif
     vf::require("every truncation point decodes through the bounded reader inside the supplied bytes");
 #ifdef C09_VALGRIND
     vf::require("memcheck silent while decoding truncated input");
